@@ -14,6 +14,72 @@ use vcheck::{json, quiet_catch, run_property, Ctx, Property, Tier, Value};
 
 struct C05;
 
+// ---- deadlines that differ by less than a millisecond --------------------------------------
+
+struct Fine {
+    log: Arc<Mutex<Vec<(String, u128)>>>,
+    /// arm the later deadline first
+    later_first: bool,
+}
+impl Module for Fine {
+    fn at_sim_start(&mut self, _: usize) {
+        let us = Duration::from_micros;
+        let mut jobs: Vec<(&'static str, u64)> = vec![("a", 1_000_200), ("b", 1_000_700), ("c", 1_000_999), ("d", 1_001_000)];
+        if self.later_first {
+            jobs.reverse();
+        }
+        for (name, d) in jobs {
+            let l = self.log.clone();
+            tokio::spawn(async move {
+                sleep(us(d)).await;
+                l.lock().unwrap().push((name.to_string(), SimTime::now().as_nanos()));
+            });
+        }
+        let l = self.log.clone();
+        tokio::spawn(async move {
+            let r = timeout(us(1_000_500), sleep(us(1_000_900))).await;
+            l.lock().unwrap().push((format!("timeout:{}", r.is_ok()), SimTime::now().as_nanos()));
+        });
+        let l = self.log.clone();
+        tokio::spawn(async move {
+            let mut iv = interval(us(2_500));
+            for k in 0..3 {
+                iv.tick().await;
+                l.lock().unwrap().push((format!("tick{k}"), SimTime::now().as_nanos()));
+            }
+        });
+    }
+}
+/// Timers of one module whose deadlines fall into the same millisecond: each fires at exactly its own deadline.
+fn run_fine(later_first: bool) -> Result<u64, String> {
+    let got = quiet_catch(move || {
+        let log: Arc<Mutex<Vec<(String, u128)>>> = Default::default();
+        let mut sim = Sim::new(());
+        sim.node("m", Fine { log: log.clone(), later_first });
+        let r = Builder::seeded(1).quiet().max_time(10.0.into()).build(sim.freeze()).run();
+        drop(r);
+        let mut g = log.lock().unwrap().clone();
+        g.sort();
+        g
+    })
+    .map_err(|m| format!("panicked: {m}"))?;
+    let mut exp: Vec<(String, u128)> = vec![
+        ("a".into(), 1_000_200_000),
+        ("b".into(), 1_000_700_000),
+        ("c".into(), 1_000_999_000),
+        ("d".into(), 1_001_000_000),
+        ("timeout:false".into(), 1_000_500_000),
+        ("tick0".into(), 0),
+        ("tick1".into(), 2_500_000),
+        ("tick2".into(), 5_000_000),
+    ];
+    exp.sort();
+    if got != exp {
+        return Err(format!("timers with deadlines inside one millisecond (armed {} first): completions {got:?}, expected {exp:?}", if later_first { "latest" } else { "earliest" }));
+    }
+    Ok(vcheck::fp(&got))
+}
+
 const S: u64 = 1000; // ms
 /// the message-fed flag becomes true this long after the module (re)started
 const FLAG_AT: u64 = 2 * S;
@@ -570,7 +636,7 @@ impl Property for C05 {
         let n = alphabet(tier).len();
         format!(
             "step alphabet of {n} steps (sleep, sleep_until, timeout over sleep / pending / far-future / message-fed flag, biased select of two sleeps and of a far-future sleep in both branch orders, create-poll-drop, reset before/after first poll (also to the same, an earlier or an already passed deadline, and after another timer ran), interval reset, interval x {{Burst, Delay, Skip}} x busy gaps {{0, p/2, p+3ms, p+6ms, 2p+6ms, 5s}}, wait for a message-fed flag; delays 0..3 s); \
-             enumerated completely: one task with every script of 1..={} steps; two tasks (1 step | 1 step) for every combination; two tasks (1 step | 2 steps) over {}; the same scripts of up to 2 steps with the module shut down at 1.25 s and restarted 1 s later; 61 / 62 / 80 / 130 tasks running one script (sleep, two sleeps, timeout, select) so that their timers share deadlines, without and with that restart; \
+             enumerated completely: one task with every script of 1..={} steps; two tasks (1 step | 1 step) for every combination; two tasks (1 step | 2 steps) over {}; the same scripts of up to 2 steps with the module shut down at 1.25 s and restarted 1 s later; one module whose timers have deadlines inside one millisecond (sleeps at 1.0002 / 1.0007 / 1.000999 / 1.001 s, a timeout at 1.0005 s, a 2.5 ms interval; armed in both orders); 61 / 62 / 80 / 130 tasks running one script (sleep, two sleeps, timeout, select) so that their timers share deadlines, without and with that restart; \
              oracle: reference interpreter with exact virtual time: every await returns at exactly the computed instant with the computed value, every joined task finishes, run end in [last completion, latest finite deadline registered]; a message-fed future becoming ready at exactly a competing deadline accepts both results; \
              non-trivial = script in which a live timer has to fire behind a cancelled / dropped / already-fired one",
             tier.pick(2, 3),
@@ -584,9 +650,19 @@ impl Property for C05 {
         ]
     }
     fn required_features(&self, _tier: Tier) -> Vec<&'static str> {
-        vec!["live_timer_behind_cancelled_one", "message_timer_tie", "two_tasks", "restart_variant", "interval_missed_tick", "many_timers_sharing_a_deadline"]
+        vec!["live_timer_behind_cancelled_one", "message_timer_tie", "two_tasks", "restart_variant", "interval_missed_tick", "many_timers_sharing_a_deadline", "deadlines_within_one_millisecond"]
     }
     fn explore(&self, ctx: &mut Ctx) {
+        if ctx.is_first_shard() {
+            for later_first in [false, true] {
+                ctx.out.evaluations += 1;
+                ctx.hit("deadlines_within_one_millisecond");
+                match run_fine(later_first) {
+                    Ok(o) => ctx.outcome(o),
+                    Err(d) => ctx.violation("violation", || json!({"sub_millisecond_probe": later_first}), d),
+                }
+            }
+        }
         let alpha = alphabet(ctx.tier);
         let mut cases: Vec<Case> = vec![];
         // one task: all scripts of 1..=L steps
@@ -691,6 +767,9 @@ impl Property for C05 {
         }
     }
     fn replay(&self, case: &Value) -> Result<(), String> {
+        if let Some(lf) = case.get("sub_millisecond_probe") {
+            return run_fine(lf.as_bool().unwrap()).map(|_| ());
+        }
         run_case(&decode(case), &mut Facts::default()).map(|_| ())
     }
 }
